@@ -1,7 +1,7 @@
 (* C05 — basic facts about the model of balanceBlock (model/C05_model.v):
    what a slot keeps through sorting, the passes and the final widening; what emission means. *)
 From Coq Require Import List Arith Bool Lia Permutation.
-From AV Require Import model.C05_model.
+From AV Require Import model.C05_model model.C05_old_model.
 Import ListNotations.
 
 (* ---------- small list facts ---------- *)
@@ -36,9 +36,9 @@ Proof. intros Hc [->| ->] H; auto. Qed.
 Lemma wle_want s s' : wle s s' -> swant s = true -> swant s' = true.
 Proof. intros [->| ->] H; auto. Qed.
 
-Lemma try_slot_wle d a s a' s' dn : try_slot d a s = (a', s', dn) -> wle s s'.
+Lemma try_slot_wle d a s a' s' dn : try_slot_old d a s = (a', s', dn) -> wle s s'.
 Proof.
-  unfold try_slot. intros H.
+  unfold try_slot_old. intros H.
   destruct (mem (mid (smnt s)) (wantMnt a) || negb (dev (smnt s) =? 0) && mem (dev (smnt s)) (wantDev a)).
   - injection H as _ <- _. apply wle_refl.
   - match type of H with (if ?c then _ else _) = _ => destruct c end; injection H as _ <- _.
@@ -47,17 +47,17 @@ Proof.
 Qed.
 
 Lemma pass_wle dist d : forall l a dn a' dn' l',
-  pass dist d a dn l = (a', dn', l') -> Forall2 wle l l'.
+  pass_old dist d a dn l = (a', dn', l') -> Forall2 wle l l'.
 Proof.
   induction l as [|s r IH]; intros a dn a' dn' l' H; simpl in H.
   - injection H as _ _ <-. constructor.
   - destruct dn.
     + injection H as _ _ <-. clear. induction (s :: r); constructor; auto using wle_refl.
     + destruct (dist && mem (msrv (smnt s)) (wantSrv a)).
-      * destruct (pass dist d a false r) as [[a1 d1] r1] eqn:E. injection H as _ _ <-.
+      * destruct (pass_old dist d a false r) as [[a1 d1] r1] eqn:E. injection H as _ _ <-.
         constructor; [apply wle_refl|eapply IH; eauto].
-      * destruct (try_slot d a s) as [[a1 s1] d1] eqn:Et.
-        destruct (pass dist d a1 d1 r) as [[a2 d2] r2] eqn:E. injection H as _ _ <-.
+      * destruct (try_slot_old d a s) as [[a1 s1] d1] eqn:Et.
+        destruct (pass_old dist d a1 d1 r) as [[a2 d2] r2] eqn:E. injection H as _ _ <-.
         constructor; [eapply try_slot_wle; eauto|eapply IH; eauto].
 Qed.
 
@@ -96,9 +96,9 @@ Proof.
   destruct (negb (dev (smnt s) =? 0) && mem (dev (smnt s)) wd); [apply add_incl|apply incl_refl].
 Qed.
 
-Lemma try_slot_unsafe d a s a' s' dn : try_slot d a s = (a', s', dn) -> incl (unsafe a) (unsafe a').
+Lemma try_slot_unsafe d a s a' s' dn : try_slot_old d a s = (a', s', dn) -> incl (unsafe a) (unsafe a').
 Proof.
-  unfold try_slot. intros H.
+  unfold try_slot_old. intros H.
   destruct (mem (mid (smnt s)) (wantMnt a) || negb (dev (smnt s) =? 0) && mem (dev (smnt s)) (wantDev a)).
   - injection H as <- _ _. apply incl_refl.
   - set (a1 := match srepl s with
@@ -110,15 +110,15 @@ Proof.
     match type of H with (if ?c then _ else _) = _ => destruct c end; injection H as <- _ _; exact I1.
 Qed.
 Lemma pass_unsafe dist d : forall l a dn a' dn' l',
-  pass dist d a dn l = (a', dn', l') -> incl (unsafe a) (unsafe a').
+  pass_old dist d a dn l = (a', dn', l') -> incl (unsafe a) (unsafe a').
 Proof.
   induction l as [|s r IH]; intros a dn a' dn' l' H; simpl in H.
   - injection H as <- _ _. apply incl_refl.
   - destruct dn; [injection H as <- _ _; apply incl_refl|].
     destruct (dist && mem (msrv (smnt s)) (wantSrv a)).
-    + destruct (pass dist d a false r) as [[a1 d1] r1] eqn:E. injection H as <- _ _. eapply IH; eauto.
-    + destruct (try_slot d a s) as [[a1 s1] d1] eqn:Et.
-      destruct (pass dist d a1 d1 r) as [[a2 d2] r2] eqn:E. injection H as <- _ _.
+    + destruct (pass_old dist d a false r) as [[a1 d1] r1] eqn:E. injection H as <- _ _. eapply IH; eauto.
+    + destruct (try_slot_old d a s) as [[a1 s1] d1] eqn:Et.
+      destruct (pass_old dist d a1 d1 r) as [[a2 d2] r2] eqn:E. injection H as <- _ _.
       eapply incl_tran; [eapply try_slot_unsafe; eauto|eapply IH; eauto].
 Qed.
 
@@ -126,15 +126,15 @@ Qed.
 Lemma do_class_unfold dflt rank devrank c d sl uns under :
   d <> 0 ->
   exists a1 d1 l1 a2 d2 l2,
-    pass true d (acc0 uns) false (isort dflt rank devrank c sl) = (a1, d1, l1) /\
-    pass false d a1 d1 l1 = (a2, d2, l2) /\
-    do_class dflt rank devrank c d (sl, uns, under) =
+    pass_old true d (acc0 uns) false (isort dflt rank devrank c sl) = (a1, d1, l1) /\
+    pass_old false d a1 d1 l1 = (a2, d2, l2) /\
+    do_class_old dflt rank devrank c d (sl, uns, under) =
       (l2, protect_wanted_devs (wantDev a2) l2 (unsafe a2),
-       if under then true else safe_count dflt c d l2 0 <? d).
+       if under then true else safe_count_old dflt c d l2 0 <? d).
 Proof.
-  intros Hd. unfold do_class. destruct (d =? 0) eqn:E; [apply Nat.eqb_eq in E; contradiction|].
-  destruct (pass true d (acc0 uns) false (isort dflt rank devrank c sl)) as [[a1 d1] l1] eqn:E1.
-  destruct (pass false d a1 d1 l1) as [[a2 d2] l2] eqn:E2.
+  intros Hd. unfold do_class_old. destruct (d =? 0) eqn:E; [apply Nat.eqb_eq in E; contradiction|].
+  destruct (pass_old true d (acc0 uns) false (isort dflt rank devrank c sl)) as [[a1 d1] l1] eqn:E1.
+  destruct (pass_old false d a1 d1 l1) as [[a2 d2] l2] eqn:E2.
   exists a1, d1, l1, a2, d2, l2. auto.
 Qed.
 
@@ -149,10 +149,10 @@ Proof.
   exists (fst (fst st)). split; [reflexivity|]. induction (fst (fst st)); constructor; auto using wle_refl.
 Qed.
 
-Lemma do_class_evolves dflt rank devrank c d st : evolves st (do_class dflt rank devrank c d st).
+Lemma do_class_evolves dflt rank devrank c d st : evolves st (do_class_old dflt rank devrank c d st).
 Proof.
   destruct st as [[sl uns] under].
-  destruct (Nat.eq_dec d 0) as [->|Hd]; [unfold do_class; simpl; apply evolves_refl|].
+  destruct (Nat.eq_dec d 0) as [->|Hd]; [unfold do_class_old; simpl; apply evolves_refl|].
   destruct (do_class_unfold dflt rank devrank c d sl uns under Hd) as (a1 & d1 & l1 & a2 & d2 & l2 & E1 & E2 & ->).
   split; simpl.
   - exists (isort dflt rank devrank c sl). split; [symmetry; apply isort_perm|].
@@ -207,7 +207,7 @@ Proof.
 Qed.
 
 Lemma run_classes_evolves dflt rank devrank desired classes : forall st,
-  evolves st (fold_left (fun st c => do_class dflt rank devrank c (lookup desired c) st) classes st).
+  evolves st (fold_left (fun st c => do_class_old dflt rank devrank c (lookup desired c) st) classes st).
 Proof.
   induction classes as [|c r IH]; intros st; simpl; [apply evolves_refl|].
   eapply evolves_trans; [apply do_class_evolves|apply IH].
@@ -262,9 +262,9 @@ Proof. unfold widen. destruct (srepl s); [|apply wle_refl]. destruct (under || m
 
 Lemma final_slots_Forall dflt rank devrank P mounts replicas classes desired :
   wclosed P -> Forall P (map (mkslot replicas) mounts) ->
-  Forall P (final_slots dflt rank devrank mounts replicas classes desired).
+  Forall P (final_slots_old dflt rank devrank mounts replicas classes desired).
 Proof.
-  intros Hc H0. unfold final_slots, run_classes.
+  intros Hc H0. unfold final_slots_old, run_classes_old.
   pose proof (run_classes_evolves dflt rank devrank desired classes (map (mkslot replicas) mounts, [], false)) as Ev.
   destruct (fold_left _ classes _) as [[sl uns] under].
   pose proof (evolves_Forall P _ _ Hc Ev H0) as H1. simpl in H1.
@@ -273,7 +273,7 @@ Proof.
 Qed.
 
 Lemma final_slots_ok dflt rank devrank mounts replicas classes desired :
-  Forall (slot_ok mounts replicas) (final_slots dflt rank devrank mounts replicas classes desired).
+  Forall (slot_ok mounts replicas) (final_slots_old dflt rank devrank mounts replicas classes desired).
 Proof.
   apply final_slots_Forall; [apply slot_ok_closed|].
   rewrite Forall_forall. intros s Hs. apply in_map_iff in Hs. destruct Hs as (m & <- & Hm). apply mkslot_ok; auto.
